@@ -64,18 +64,19 @@ Reachable(T) ==
         \cup NetsOf(T, ups) \cup {T.country[up] : up \in ups}
         \cup UNION {SeqSet(T.devs[up]) : up \in ups}
 
-(* obj.systems non-empty (all usage patterns are in the system) *)
+(* obj.systems non-empty, derived from the containers exactly as the classes do *)
 HasSystem(T, o) ==
+    LET inSys(U) == U \cap SysUPs(T) # {} IN
     \/ o = SYS
-    \/ o \in T.ups
-    \/ o \in T.ujs /\ UPsOfUJ(T, o) # {}
-    \/ o \in T.steps /\ UPsOfStep(T, o) # {}
-    \/ o \in T.jobs /\ UPsOfJob(T, o) # {}
-    \/ o \in T.servers /\ \E j \in JobsOfServer(T, o) : UPsOfJob(T, j) # {}
-    \/ o \in T.storages /\ \E j \in JobsOfStorage(T, o) : UPsOfJob(T, j) # {}
-    \/ o \in T.nets /\ UPsOfNet(T, o) # {}
-    \/ o \in T.countries /\ UPsOfCountry(T, o) # {}
-    \/ o \in T.devices /\ UPsOfDevice(T, o) # {}
+    \/ o \in T.ups /\ o \in SysUPs(T)
+    \/ o \in T.ujs /\ inSys(UPsOfUJ(T, o))
+    \/ o \in T.steps /\ inSys(UPsOfStep(T, o))
+    \/ o \in T.jobs /\ inSys(UPsOfJob(T, o))
+    \/ o \in T.servers /\ \E j \in JobsOfServer(T, o) : inSys(UPsOfJob(T, j))
+    \/ o \in T.storages /\ \E j \in JobsOfStorage(T, o) : inSys(UPsOfJob(T, j))
+    \/ o \in T.nets /\ inSys(UPsOfNet(T, o))
+    \/ o \in T.countries /\ inSys(UPsOfCountry(T, o))
+    \/ o \in T.devices /\ inSys(UPsOfDevice(T, o))
 
 (************************ attributes, in declared order ********************)
 UJAttrs  == <<"duration">>
@@ -224,7 +225,9 @@ DefServer(T, v, a) ==
 ReadsStorage(T, t, a) ==
     LET J == JobsOfStorage(T, t)
         V == ServersOfStorage(T, t)
-        jobreads == UNION {{S(j, "hourly_data_stored_across_usage_patterns"), S(j, "data_stored")} : j \in J}
+        \* the sign of job.data_stored is read too, but it only matters when the job stores data at some
+        \* hour, and then hourly_data_stored_across_usage_patterns depends on data_stored anyway
+        jobreads == {S(j, "hourly_data_stored_across_usage_patterns") : j \in J}
     IN
     CASE a = "carbon_footprint_fabrication" ->
            {S(t, "carbon_footprint_fabrication_per_storage_capacity"), S(t, "storage_capacity")}
@@ -248,13 +251,17 @@ DefStorage(T, t, a) ==
       [] a = "instances_energy" \/ a = "energy_footprint" -> <<ServersOfStorage(T, t)>>
       [] OTHER -> <<>>
 
-NetPairs(T, n) == UNION {{<<up, j>> : j \in JobsOfUJ(T, T.uj[up])} : up \in UPsOfNet(T, n)}
+(* a usage pattern whose journey has no job contributes nothing to its network *)
+NetUPs(T, n) == {up \in UPsOfNet(T, n) : JobsOfUJ(T, T.uj[up]) # {}}
+NetPairs(T, n) == UNION {{<<up, j>> : j \in JobsOfUJ(T, T.uj[up])} : up \in NetUPs(T, n)}
 
+(* a network none of whose usage patterns has a job is never computed: it stays empty whatever its inputs *)
 ReadsNet(T, n) ==
+    IF NetPairs(T, n) = {} THEN {} ELSE
     {S(n, "bandwidth_energy_intensity")}
     \cup {<<p[2], "hourly_data_transferred_per_usage_pattern", p[1]>> : p \in NetPairs(T, n)}
-    \cup {S(T.country[up], "average_carbon_intensity") : up \in UPsOfNet(T, n)}
-DefNet(T, n) == <<NetPairs(T, n), {<<up, T.country[up]>> : up \in UPsOfNet(T, n)}>>
+    \cup {S(T.country[up], "average_carbon_intensity") : up \in NetUPs(T, n)}
+DefNet(T, n) == <<NetPairs(T, n), {<<up, T.country[up]>> : up \in NetUPs(T, n)}>>
 
 ReadsSys(T) ==
     UNION {{S(v, "instances_fabrication_footprint"), S(v, "energy_footprint")} : v \in SysServers(T)}
